@@ -39,6 +39,13 @@ def _arrays(kind, params, symbolic, rng):
         ints("idx", (m,), size)
         if mode != "direct":
             real("x", (n, 2))
+    elif kind == "cat_index":
+        sizes, how = params
+        a = ints("idx", () if how == "scalar" else (2,), sum(sizes))
+        if not symbolic:        # an index beyond the first part
+            a[...] = sum(sizes) - 1
+        for i, n in enumerate(sizes):
+            real("p%d" % i, (n,))
     elif kind == "sum_product":
         for name, vs in params["factors"]:
             real(name, tuple(params["sizes"][v] for v in vs), params["carrier"])
@@ -93,6 +100,22 @@ def _run(kind, params, arrays, rand=None):
                 e = x(i=Slice("t", start, stop, step, n))
             held.append(e(t=idx))
             held.append(x(i=Slice("t", start, stop, step, n))(t=idx))
+    elif kind == "cat_index":
+        # a Cat that stays lazy (its parts mention a free real variable), indexed by an integer Tensor
+        from funsor import Real
+        from funsor.terms import Cat
+        sizes, how = params
+        z = Variable("z", Real)
+        parts = tuple(Tensor(arrays["p%d" % i], OrderedDict(a=Bint[n])) + z for i, n in enumerate(sizes))
+        c = Cat("a", parts)
+        held.append(c)
+        idx = Tensor(arrays["idx"], OrderedDict() if how == "scalar" else OrderedDict(k=Bint[2]), sum(sizes))
+        held.append(idx)
+        for _ in range(2):                    # the same call twice must see the same index
+            try:
+                held.append(c(a=idx))
+            except NotImplementedError:
+                pass
     elif kind == "sum_product":
         from funsor.sum_product import sum_product
         sizes = params["sizes"]
@@ -259,6 +282,9 @@ def instances(tier):
     for sl in [(1, 4, 1, 4), (0, 4, 1, 4), (0, 4, 2, 4), (1, 4, 2, 4), (2, 5, 1, 6), (1, 6, 3, 6)]:
         for mode in ("direct", "lazy"):
             out.append(("api", "slice_index", (sl, 3, mode)))
+    for sizes in ((2, 3), (1, 2, 2)):
+        for how in ("scalar", "vector"):
+            out.append(("api", "cat_index", (sizes, how)))
     graphs = [dict(factors=[("f", ("a",)), ("g", ("a", "b"))], eliminate=["a", "b"], plates=[]),
               dict(factors=[("f", ("a",)), ("g", ("a", "i")), ("h", ("a", "b", "i"))], eliminate=["a", "b", "i"], plates=["i"]),
               dict(factors=[("f", ("a", "b")), ("g", ("b", "c")), ("h", ("c",))], eliminate=["b"], plates=[])]
